@@ -34,8 +34,27 @@ def ref_crc(data):
     return c
 
 
+FORMS = ["list", "bytes", "bytearray", "tuple", "memoryview-window-of-bytes", "memoryview-window-of-bytearray"]
+
+
+def as_form(msg, form):
+    """the message as the caller's kind of buffer; a memoryview is a proper window of a larger receive buffer whose other
+    bytes are not zero (as in `memoryview(rxbuf)[2:2 + n]`)"""
+    if form == 0:
+        return list(msg)
+    if form == 1:
+        return bytes(msg)
+    if form == 2:
+        return bytearray(msg)
+    if form == 3:
+        return tuple(msg)
+    if form == 4:
+        return memoryview(bytes([0xA5, 0x5A] + list(msg) + [0xC3]))[2:2 + len(msg)]
+    return memoryview(bytearray([0x01] + list(msg) + [0xFE, 0x7F]))[1:1 + len(msg)]
+
+
 def call(mod, msg, form):
-    data = list(msg) if form == 0 else (bytes(msg) if form == 1 else bytearray(msg))
+    data = as_form(msg, form)
     try:
         r = mod.crc7(data)
     except Exception as e:
@@ -380,11 +399,13 @@ Print Assumptions impl_burst7.
     cases = []
     nontrivial = set()
     impl_errors = []
+    forms = []
     for i, m in enumerate(msgs):
-        form = i % 3
+        form = i % len(FORMS)
+        forms.append(form)
         got = call(mod, m, form)
         ctx.count("len=%s" % (len(m) if len(m) < 3 else ">=3"))
-        ctx.count("form=%s" % ["list", "bytes", "bytearray"][form])
+        ctx.count("form=%s" % FORMS[form])
         if got[0] != "ok" or got[1] < 0:
             impl_errors.append((m, got))
             cases.append((m, None))
@@ -449,7 +470,7 @@ Print Assumptions impl_burst7.
         "traces_validated_against_impl": len(msgs),
         "distinct_nontrivial": len(nontrivial),
         "rule": "messages: empty, all 256 one-byte, two-byte (all 65536 in thorough, 1500 random in quick), random "
-                "lengths 3..100 (sparse/extreme/uniform), each passed as list, bytes or bytearray; non-trivial = "
+                "lengths 3..100 (sparse/extreme/uniform), each passed as list, bytes, bytearray, tuple or a memoryview window of a larger buffer; non-trivial = "
                 "distinct non-empty byte strings",
         "exhaustive": False,
         "exhaustive_parts": ["256 table entries (table_ok)", "all one-byte messages"] +
@@ -465,6 +486,11 @@ Print Assumptions impl_burst7.
             if v != exp and call(mod, m, 0) != ("ok", exp):     # reproducible on a fresh object
                 found.append({"kind": "input", "what": "crc7(%r) = %r, bit-serial CRC-7 gives %d" % (m, v, exp),
                               "fingerprint": "crc7-differs-from-bitwise", "input": m, "expected": exp, "got": v})
+                break
+            if v != exp and call(mod, m, forms[i]) != ("ok", exp):     # reproducible in the kind of buffer it was passed in
+                found.append({"kind": "input", "what": "crc7(<%s of %r>) = %r, bit-serial CRC-7 gives %d" % (FORMS[forms[i]], m, v, exp),
+                              "fingerprint": "crc7-differs-from-bitwise-in-" + FORMS[forms[i]], "input": m, "form": forms[i],
+                              "expected": exp, "got": v})
                 break
         if not found:
             found = oracle_search(mod, ctx, msgs)
@@ -527,9 +553,9 @@ def replay(ctx, obj):
         return 0
     if obj.get("kind") == "input" and "flipped_bits" not in obj:
         m = obj["input"]
-        got = call(mod, m, 0)
+        got = call(mod, m, obj.get("form", 0))
         exp = ref_crc(m)
-        print("crc7(%r) = %r ; bit-serial reference = %d" % (m, got, exp))
+        print("crc7(%s of %r) = %r ; bit-serial reference = %d" % (FORMS[obj.get("form", 0)], m, got, exp))
         if got != ("ok", exp):
             print("VIOLATION property=C20 replay=%s" % "(replayed)")
             return 1
